@@ -8,7 +8,10 @@ From scrapli (import + ast):
   * the levels `_create_configuration_session` produces for a fixed family of session names (NX-OS, EOS);
   * default_desired_privilege_level of a constructed driver; the level named "configuration";
   * the on_open command list (by running <platform>_on_open against a recording stub);
-  * the shape of `_abort_config` of the sync AND async driver classes (ast; both twins must agree).
+  * the shape of `_abort_config` of the sync AND async driver classes (ast; both twins must agree);
+  * the ORDER fact p_reset_first (ast of `_process_acquire_priv` and of sync AND async `acquire_priv`): on the way from
+    the head of acquire_priv's loop to the `_escalate` / `_deescalate` call the tracked level is assigned DUMMY_PRIV_LEVEL
+    (in `_process_acquire_priv`, called before the step, or in the loop body before the step) and not assigned again.
 From harness/simdevice.py (the vendors' CLI tables, independent of PRIVS): mode -> line -> new mode, login modes.
 Strings are interned: level name -> id (universe index), line -> id (< 100; user content lines are >= 100)."""
 import ast
@@ -119,6 +122,103 @@ def abort_shape(cls):
             raise GenError("unexpected test in _abort_config: %s" % ast.dump(t))
         return ("sess", _send_input(body[0].body[0]), _belief_assign(body[0].body[1]), t.left.value)
     raise GenError("unrecognised _abort_config body in %s" % cls.__name__)
+
+
+def _fn_ast(cls, name):
+    fn = None
+    for klass in cls.__mro__:
+        if name in klass.__dict__:
+            fn = klass.__dict__[name]
+            break
+    if fn is None:
+        raise GenError("no %s on %s" % (name, cls))
+    src = inspect.getsource(fn)
+    tree = ast.parse("class _X:\n" + src if src.startswith("    ") else src)
+    return [n for n in ast.walk(tree) if isinstance(n, (ast.FunctionDef, ast.AsyncFunctionDef))][0]
+
+
+def _belief_assigns(stmt):
+    """assignments to self._current_priv_level anywhere inside stmt: list of 'dummy' / 'other'"""
+    out = []
+    for n in ast.walk(stmt):
+        targets = n.targets if isinstance(n, ast.Assign) else ([n.target] if isinstance(n, (ast.AugAssign, ast.AnnAssign)) else [])
+        for t in targets:
+            if _is_self_attr(t, "_current_priv_level"):
+                v = getattr(n, "value", None)
+                out.append("dummy" if isinstance(v, ast.Name) and v.id == "DUMMY_PRIV_LEVEL" else "other")
+    return out
+
+
+def _calls(stmt, *names):
+    for n in ast.walk(stmt):
+        if isinstance(n, ast.Call) and any(_is_self_attr(n.func, nm) for nm in names):
+            return True
+    return False
+
+
+def _leaves(stmt):
+    """an `if` whose body always ends in return / raise does not flow on to the statements after it"""
+    return isinstance(stmt, ast.If) and not stmt.orelse and stmt.body and isinstance(stmt.body[-1], (ast.Return, ast.Raise))
+
+
+def reset_order_fact():
+    """p_reset_first: True iff in sync and async acquire_priv the belief is reset to DUMMY before the escalate /
+    deescalate step of the loop (directly, or by `_process_acquire_priv` called before the step) and not re-assigned
+    in between.  Unrecognised shapes raise (fail closed); a recognised shape with the other order gives False."""
+    from scrapli.driver.network.async_driver import AsyncNetworkDriver
+    from scrapli.driver.network.base_driver import BaseNetworkDriver
+    from scrapli.driver.network.sync_driver import NetworkDriver
+
+    proc = _fn_ast(BaseNetworkDriver, "_process_acquire_priv")
+    body = list(proc.body)
+    step_returns = []          # top-level index of every `return PrivilegeAction.ESCALATE/DEESCALATE, ...`
+    for i, st in enumerate(body):
+        for n in ast.walk(st):
+            if isinstance(n, ast.Return) and isinstance(n.value, ast.Tuple) and n.value.elts:
+                e = n.value.elts[0]
+                if isinstance(e, ast.Attribute) and isinstance(e.value, ast.Name) and e.value.id == "PrivilegeAction":
+                    if e.attr in ("ESCALATE", "DEESCALATE"):
+                        step_returns.append(i)
+                    elif e.attr != "NO_ACTION":
+                        raise GenError("_process_acquire_priv: unknown action %s" % e.attr)
+    if not step_returns:
+        raise GenError("_process_acquire_priv: no return of an ESCALATE / DEESCALATE action found")
+    dummy_at = [i for i, st in enumerate(body) if isinstance(st, ast.Assign) and _belief_assigns(st) == ["dummy"]]
+    proc_resets = False
+    if dummy_at:
+        i0 = dummy_at[-1]
+        later = [a for st in body[i0 + 1:] if not _leaves(st) for a in _belief_assigns(st)]
+        proc_resets = i0 < min(step_returns) and not later
+    facts = []
+    for cls in (NetworkDriver, AsyncNetworkDriver):
+        fdef = _fn_ast(cls, "acquire_priv")
+        loops = [n for n in fdef.body if isinstance(n, ast.While)]
+        if len(loops) != 1:
+            raise GenError("%s.acquire_priv: expected exactly one while loop" % cls.__name__)
+        lb = list(loops[0].body)
+        i_proc = [i for i, st in enumerate(lb) if _calls(st, "_process_acquire_priv")]
+        i_step = [i for i, st in enumerate(lb) if _calls(st, "_escalate", "_deescalate")]
+        if len(i_proc) != 1 or not i_step:
+            raise GenError("%s.acquire_priv: loop body not recognised" % cls.__name__)
+        first = min(i_step)
+        if i_proc[0] >= first:
+            raise GenError("%s.acquire_priv: _process_acquire_priv is not called before the step" % cls.__name__)
+        # the last assignment that reaches the step, among: the one made inside _process_acquire_priv, then the
+        # straight-line statements of the loop body between that call and the step
+        state = "dummy" if proc_resets else "unknown"
+        for st in lb[i_proc[0] + 1:first]:
+            if _leaves(st):
+                continue
+            for a in _belief_assigns(st):
+                state = a
+        # the step statements themselves must not assign before calling
+        for st in lb[first:max(i_step) + 1]:
+            if any(True for _ in _belief_assigns(st)):
+                raise GenError("%s.acquire_priv: belief assigned inside the step statement" % cls.__name__)
+        facts.append(state == "dummy")
+    if facts[0] != facts[1]:
+        raise GenError("sync/async acquire_priv differ in the order of the belief reset")
+    return facts[0]
 
 
 class _Rec:
@@ -270,7 +370,7 @@ def platform_facts(plat):
             "failed_when_contains": list(base.FAILED_WHEN_CONTAINS), "problems": problems}
 
 
-def coq_platform(f):
+def coq_platform(f, reset_first=True):
     def opt(x):
         return "None" if x is None else "(Some %d)" % x
 
@@ -278,9 +378,9 @@ def coq_platform(f):
                    for r in f["levels"])
     dev = "; ".join("(%d, %d, %d)" % x for x in f["dev"])
     regs = "; ".join("[" + "; ".join(map(str, r)) + "]" for r in f["regs"])
-    return ("mkPlatform\n    [%s]\n    %d %d %d %s\n    [%s]\n    [%s]\n    [%s]\n    [%s]\n    [%s]" % (
+    return ("mkPlatform\n    [%s]\n    %d %d %d %s\n    [%s]\n    [%s]\n    [%s]\n    [%s]\n    [%s]\n    %s" % (
         lv, f["nbase"], f["default"], f["cfg"], f["abort"], "; ".join(map(str, f["open"])), dev,
-        "; ".join(map(str, f["login"])), "; ".join(map(str, f["cands"])), regs))
+        "; ".join(map(str, f["login"])), "; ".join(map(str, f["cands"])), regs, "true" if reset_first else "false"))
 
 
 def generate(outdir):
@@ -288,12 +388,15 @@ def generate(outdir):
     if here not in sys.path:
         sys.path.insert(0, here)
     facts = [platform_facts(p) for p in PLATFORMS]
+    reset_first = reset_order_fact()
     out = ["(* generated from the scrapli tree and harness/simdevice.py by gen/gen_netdriver.py — do not edit *)",
            "From Coq Require Import List Arith Bool.", "Import ListNotations.", "From Verif Require Import NetDriver.", ""]
     for f in facts:
         short = f["platform"].split("_")[1]
         out.append("(* %s: levels %s ; lines %s *)" % (f["platform"], json.dumps(f["level_ids"]), json.dumps(f["line_ids"])))
-        out.append("Definition gen_%s : platform :=\n  %s.\n" % (short, coq_platform(f)))
+        out.append("Definition gen_%s : platform :=\n  %s.\n" % (short, coq_platform(f, reset_first)))
+    out.append("(* ast: the belief is reset to DUMMY before the escalate / deescalate step of acquire_priv (sync and async) *)")
+    out.append("Definition gen_reset_first : bool := %s.\n" % ("true" if reset_first else "false"))
     out.append("Definition gen_platforms : list platform := [%s]." % "; ".join("gen_" + f["platform"].split("_")[1] for f in facts))
     text = "\n".join(out) + "\n"
     path = os.path.join(outdir, "Gen_NetDriver.v")
@@ -305,6 +408,7 @@ def generate(outdir):
     for f in facts:
         info[f["platform"]]["levels"] = f["levels"]
         info[f["platform"]]["dev"] = f["dev"]
+        info[f["platform"]]["reset_first"] = reset_first
     with open(os.path.join(outdir, "netdriver_ids.json"), "w") as fh:
         json.dump(info, fh, indent=1, sort_keys=True)
     return path, info
